@@ -257,7 +257,7 @@ func runProvider(c pcase, sparse bool) *caseRun {
 			r.steps = append(r.steps, stepRec{desc: desc, lines: []string{line}, impl: []string{impl}})
 			return
 		}
-		d := pv.Dump(namer)
+		d := pv.DumpBounded(namer)
 		r.steps = append(r.steps, stepRec{desc: desc, lines: []string{line, "dump"}, impl: []string{impl, d}})
 		check(d)
 	}
@@ -412,10 +412,10 @@ func runProvider(c pcase, sparse bool) *caseRun {
 				doRelease(cand[o.H%len(cand)])
 			}
 		case "age":
-			pv.Age(time.Duration(o.D) * time.Second)
+			pv.AgeBounded(time.Duration(o.D) * time.Second)
 			step(fmt.Sprintf("age %d", o.D), fmt.Sprintf("age %d", o.D), "ok")
 		case "sweept", "sweeps":
-			before := ringNames(pv.Dump(namer))
+			before := ringNames(pv.DumpBounded(namer))
 			var out string
 			if o.Kind == "sweept" {
 				out = pv.SweepByTime()
@@ -429,7 +429,7 @@ func runProvider(c pcase, sparse bool) *caseRun {
 			} else {
 				step(o.Kind, o.Kind, out)
 			}
-			after := ringNames(pv.Dump(namer))
+			after := ringNames(pv.DumpBounded(namer))
 			for n := range before {
 				if !after[n] {
 					k, _ := strconv.Atoi(strings.TrimPrefix(n, "j"))
@@ -455,7 +455,7 @@ func runProvider(c pcase, sparse bool) *caseRun {
 	if !panicked {
 		for k := 0; k < 2; k++ {
 			d := c.IdleTo + c.BusyTo + 35
-			pv.Age(time.Duration(d) * time.Second)
+			pv.AgeBounded(time.Duration(d) * time.Second)
 			step(fmt.Sprintf("age %d", d), fmt.Sprintf("age %d", d), "ok")
 			out := pv.SweepByTime()
 			if strings.HasPrefix(out, "PANIC") {
@@ -465,7 +465,7 @@ func runProvider(c pcase, sparse bool) *caseRun {
 				step("sweept", "sweept", out)
 			}
 		}
-		d := pv.Dump(namer)
+		d := pv.DumpBounded(namer)
 		if !strings.HasPrefix(d, "ring=[] map=0 ") {
 			fail(0, "not-empty-at-end", "after everything was released and expired the cache is not empty", d, "ring=[] map=0")
 		}
@@ -705,7 +705,7 @@ func runRace(c raceCase, verbose bool) {
 	}
 	r := &caseRun{}
 	add := func(desc, line, impl string) {
-		r.steps = append(r.steps, stepRec{desc: desc, lines: []string{line, "dump"}, impl: []string{impl, pv.Dump(namer)}})
+		r.steps = append(r.steps, stepRec{desc: desc, lines: []string{line, "dump"}, impl: []string{impl, pv.DumpBounded(namer)}})
 	}
 	fail := func(kind, what, impl, spec string) {
 		r.fails = append(r.fails, pendingFail{step: len(r.steps) - 1, inClass: c.Kind == "same-uncached-id", f: vh.SpecFailure{Section: "race", Kind: kind, Input: c, Impl: impl, Spec: spec, What: what}})
@@ -824,7 +824,7 @@ func runRace(c raceCase, verbose bool) {
 		}
 		f.Gate = nil
 		check := func() {
-			inRing := ringNames(pv.Dump(namer))
+			inRing := ringNames(pv.DumpBounded(namer))
 			for n := 1; n <= 2; n++ {
 				acq, rel := f.Net(n)
 				live := held[n-1] || inRing[fmt.Sprintf("j%d", n)]
@@ -861,7 +861,7 @@ func runRace(c raceCase, verbose bool) {
 		}
 		// (had the process survived the panic:) everything expires, the sweeper runs twice
 		for k := 0; k < 2; k++ {
-			pv.Age(400 * time.Second)
+			pv.AgeBounded(400 * time.Second)
 			add("age", "age 400", "ok")
 			add("sweept", "sweept", strings.ToLower(strings.Fields(pv.SweepByTime())[0]))
 			check()
@@ -1132,6 +1132,11 @@ func runRing(c ringCase) (lines, impls []string, bad string) {
 			lines = append(lines, fmt.Sprintf("ring.nextfield %s %d", ringStr(la), a))
 			impls = append(impls, strconv.Itoa(els[a].VerifNextField().Val.(int)))
 		case "len":
+			if len(la) >= 100 {
+				// (the real Len() would never return on a next chain that does not come back to its start)
+				bad = fmt.Sprintf("the next chain of element %d does not return to its start", a)
+				return
+			}
 			lines = append(lines, fmt.Sprintf("ring.len %s", ringStr(la)))
 			impls = append(impls, strconv.Itoa(ha.Len()))
 		}
@@ -1147,6 +1152,9 @@ func runRing(c ringCase) (lines, impls []string, bad string) {
 					}
 				}
 			}
+		}
+		if bad != "" {
+			return // a broken ring: later operations on it may not even terminate
 		}
 	}
 	return
@@ -1235,6 +1243,167 @@ func sectionRing(rng *vh.Rng) {
 			}
 			res.Eval(sec, key)
 			res.Dist(sec, fs[0])
+		}
+	}
+	res.Done(sec)
+}
+
+// ---------------------------------------------------------------------------------------------
+// ringptr: container.CLElement at POINTER level — the raw next/prev fields after every Append/TearOff
+
+type ptrOp struct {
+	Op string `json:"op"` // A = x.Append(y), T = x.TearOff(y)
+	X  int    `json:"x"`
+	Y  int    `json:"y"` // -1 = nil
+}
+type ptrCase struct {
+	N   int     `json:"n"`
+	Ops []ptrOp `json:"ops"`
+}
+
+func (c ptrCase) line() string {
+	ops := make([]string, len(c.Ops))
+	for i, o := range c.Ops {
+		y := "-"
+		if o.Y >= 0 {
+			y = strconv.Itoa(o.Y % c.N)
+		}
+		ops[i] = fmt.Sprintf("%s%d:%s", o.Op, o.X%c.N, y)
+	}
+	return fmt.Sprintf("pring %d %s", c.N, strings.Join(ops, ","))
+}
+
+// runPtr performs the operations on real cells and dumps, after each, the returned cell and every cell's next/prev field.
+// Calls outside the contract of clist.go are dropped (Append of a ring to itself, TearOff of a cell of another ring): there
+// the outcome depends on the order of the field writes, which a harmless rewrite of clist.go may change. The cases that
+// were performed are returned as the case to send to the model.
+func runPtr(c ptrCase) (ptrCase, string) {
+	kept := ptrCase{N: c.N}
+	els := make([]*container.CLElement, c.N)
+	for i := range els {
+		els[i] = container.NewCLElement()
+		els[i].Val = i
+	}
+	name := func(e *container.CLElement) string {
+		if e == nil {
+			return "-"
+		}
+		return strconv.Itoa(e.Val.(int))
+	}
+	inRing := func(h *container.CLElement, e *container.CLElement) bool {
+		for _, x := range walkNext(h) {
+			if els[x] == e {
+				return true
+			}
+		}
+		return false
+	}
+	var out []string
+	for _, o := range c.Ops {
+		x := els[o.X%c.N]
+		var y *container.CLElement
+		if o.Y >= 0 {
+			y = els[o.Y%c.N]
+		}
+		var r *container.CLElement
+		if o.Op == "A" {
+			if y != nil && inRing(x, y) {
+				continue
+			}
+			r = x.Append(y)
+		} else {
+			if y != nil && !inRing(x, y) {
+				continue
+			}
+			r = x.TearOff(y)
+		}
+		kept.Ops = append(kept.Ops, o)
+		fs := make([]string, c.N)
+		for i, e := range els {
+			fs[i] = name(e.VerifNextField()) + "." + name(e.VerifPrevField())
+		}
+		out = append(out, "r="+name(r)+" "+strings.Join(fs, " "))
+	}
+	return kept, strings.Join(out, ";")
+}
+
+// genPtr: any cell on any cell, nil arguments; runPtr drops what is outside the contract
+func genPtr(rng *vh.Rng) ptrCase {
+	c := ptrCase{N: rng.Range(1, 7)}
+	n := rng.Range(3, 30)
+	for i := 0; i < n; i++ {
+		o := ptrOp{Op: "A", X: rng.Intn(c.N), Y: rng.Intn(c.N)}
+		if rng.Chance(1, 2) {
+			o.Op = "T"
+		}
+		if rng.Chance(1, 12) {
+			o.Y = -1
+		}
+		c.Ops = append(c.Ops, o)
+	}
+	return c
+}
+
+func judgePtr(c ptrCase, impl, model string, verbose bool) {
+	if verbose {
+		fmt.Printf("%s\n impl =%s\n model=%s\n", c.line(), impl, model)
+	}
+	if impl != model {
+		res.Mismatch(vh.Mismatch{Section: "ringptr", Function: "container.CLElement next/prev fields: " + c.line(), Input: c, Impl: impl, Model: model})
+	}
+}
+
+func sectionRingPtr(rng *vh.Rng) {
+	sec := res.Section("ringptr", "unit-correspondence", "random sequences of up to 30 Append/TearOff calls on 1..7 real CLElements (any cell — head or not — with any other ring / any member of its ring, nil arguments; calls outside the contract of clist.go are dropped); after EVERY call the returned cell and the raw next/prev fields of every cell are compared with the pointer-level model Model/RingPtr (the one proved to refine the list-level ring); non-trivial = at least 2 cells, distinct by request line")
+	n := 3000
+	if args.Thorough {
+		n = 60000
+	}
+	var cases []ptrCase
+	for _, f := range vh.CorpusFiles(args.Corpus) {
+		var rp struct {
+			Section string  `json:"section"`
+			Input   ptrCase `json:"input"`
+		}
+		if vh.ReadJSON(f, &rp) == nil && rp.Section == "ringptr" && rp.Input.N > 0 {
+			cases = append(cases, rp.Input)
+		}
+	}
+	for i := 0; i < n; i++ {
+		cases = append(cases, genPtr(rng))
+	}
+	var lines, impls []string
+	var done []ptrCase
+	for _, c := range cases {
+		k, im := runPtr(c)
+		if len(k.Ops) == 0 {
+			continue
+		}
+		done = append(done, k)
+		impls = append(impls, im)
+		lines = append(lines, k.line())
+	}
+	cases = done
+	res.Sample(map[string]interface{}{"section": "ringptr", "input": cases[len(cases)-1]})
+	outs, err := vh.Batch(args.Driver, lines)
+	if err != nil {
+		res.Fatal(args.Out, "driver: %v", err)
+	}
+	for i, c := range cases {
+		judgePtr(c, impls[i], outs[i], false)
+		key := ""
+		if c.N >= 2 {
+			key = lines[i]
+		}
+		res.Eval(sec, key)
+		for _, o := range c.Ops {
+			k := o.Op
+			if o.Y < 0 {
+				k += ":nil"
+			} else if o.X%c.N == o.Y%c.N {
+				k += ":self"
+			}
+			res.Dist(sec, k)
 		}
 	}
 	res.Done(sec)
@@ -1343,6 +1512,20 @@ func runDoc(rp replayDoc, verbose bool) bool {
 			res.Fatal(args.Out, "driver: %v", err)
 		}
 		judgeRing(c, l, im, bad, outs, verbose)
+	case "ringptr":
+		var c ptrCase
+		if err := json.Unmarshal(rp.Input, &c); err != nil || c.N == 0 {
+			return false
+		}
+		c, impl := runPtr(c)
+		if len(c.Ops) == 0 {
+			return true
+		}
+		outs, err := vh.Batch(args.Driver, []string{c.line()})
+		if err != nil {
+			res.Fatal(args.Out, "driver: %v", err)
+		}
+		judgePtr(c, impl, outs[0], verbose)
 	case "system":
 		var c sysCase
 		if err := json.Unmarshal(rp.Input, &c); err != nil || len(c.Progs) == 0 {
@@ -1400,9 +1583,9 @@ func runSystem(c sysCase, verbose bool) {
 		return strings.Join(out, " "), bad
 	}
 	expire := func() {
-		pv.Age(400 * time.Second)
+		pv.AgeBounded(400 * time.Second)
 		pv.SweepByTime()
-		pv.Age(400 * time.Second)
+		pv.AgeBounded(400 * time.Second)
 		pv.SweepByTime()
 	}
 	for pi, pr := range c.Progs {
@@ -1560,6 +1743,7 @@ func main() {
 	sectionCorpus()
 	sectionConsts()
 	sectionRing(rng.Fork("ring"))
+	sectionRingPtr(rng.Fork("ringptr"))
 	sectionProvider(rng.Fork("provider"))
 	sectionFreePool()
 	sectionRace()
